@@ -88,7 +88,9 @@ void pbt_property(Ctx &c) {
 
     Runner run(c, sc);
     run.rnd = &a;       // keep the 'a' matrices off the tape (enumerable)
-    run.create(); run.alloc();
+    run.create();
+    if (a.chance(1, 2)) { run.make_fillers((int)a.range(6, 40), a); c.label("sparse-handles"); }      // from the auxiliary stream: sparse / recycled handles
+    run.alloc();
     int U = unknowns_per_system(sc);
     bool had_fail = false, had_success_after_fail = false;
     Scenario prefix = sc; prefix.stds.clear();
